@@ -495,6 +495,35 @@ func genCases(seed uint64, n int) []Case {
 				Scen: scen, Cut: 1 + r.Intn(12), Cap: cp})
 		}
 	}
+	// Trailing bytes behind a request frame of EVERY kind the server knows - the
+	// body-less shutdown request (type 0) included - and all-zero garbage of
+	// 10..100 bytes (which reads as "shutdown, id 0" plus a tail): startCall must
+	// report them (seeded change C13-l).
+	{
+		kinds := []struct {
+			typ  int
+			body []byte
+		}{{0, nil}}
+		for _, s := range schemas {
+			if typ, ok := reqTypes[s.name]; ok {
+				kinds = append(kinds, struct {
+					typ  int
+					body []byte
+				}{typ, encodeBody(s, genFields(r, s, false))})
+			}
+		}
+		for _, k := range kinds {
+			frame := append(append(le64(uint64(9000+k.typ)), byte(k.typ)), k.body...)
+			for _, extra := range []int{1, 2, 91, 5000} {
+				tail := make([]byte, extra) // zeros, then one case of random bytes
+				add(Case{Stream: "tail-accepted", Op: "start", Input: segsOf(append(append([]byte{}, frame...), tail...))})
+			}
+			add(Case{Stream: "tail-accepted", Op: "start", Input: segsOf(append(append([]byte{}, frame...), r.Bytes(7)...))})
+		}
+		for _, n := range []int{10, 11, 17, 64, 100} {
+			add(Case{Stream: "tail-accepted", Op: "start", Input: segsOf(make([]byte, n))})
+		}
+	}
 	// One large field through REAL websocket frames to the real endpointServer.serve
 	// (seeded change C13-i: a read limit on the websocket): sizes on both sides of
 	// every integer the package names, 1 MiB + 1 KiB +- 1, 3 MiB.
